@@ -22,8 +22,13 @@ GUARD = "AITOOLBOX_VERIF"
 CXX = os.environ.get("VERIF_CXX", "g++")
 CXXFLAGS = ["-std=c++20", "-O1", "-DNDEBUG", "-D" + GUARD, "-DBOOST_ALLOW_DEPRECATED_HEADERS",
             "-DBOOST_BIND_GLOBAL_PLACEHOLDERS", "-w",
+            # every Eigen matrix/vector the library allocates without a value starts as NaN instead of whatever the
+            # heap holds: a read of uninitialised coefficients shows up as a NaN in the outputs of EVERY check
+            # (deterministically), not only under the sanitizers; code that writes before reading is unaffected
+            "-DEIGEN_INITIALIZE_MATRICES_BY_NAN",
             "-I" + os.path.join(REPO, "include"), "-I/usr/include/eigen3",
             "-I" + os.path.join(ROOT, "harness", "common")]
+CXXFLAGS += os.environ.get("VERIF_EXTRA_DEFS", "").split()     # experiments (e.g. -DEIGEN_INITIALIZE_MATRICES_BY_NAN)
 ASANFLAGS = ["-g", "-fsanitize=address,undefined", "-fno-sanitize-recover=all", "-fno-omit-frame-pointer"]
 LP_LINK = ["/usr/lib/liblpsolve55.a", "-lcolamd", "-ldl"]
 
